@@ -525,6 +525,15 @@ def sched_differential(ctx, programs, extra_opts=None):
         if any(r is None and ci not in crashes for ci, r in runs.values()):
             st["unknown_after_shard_death"] = st.get("unknown_after_shard_death", 0) + 1
             continue
+        # the evaluator panics with the same message under EVERY schedule, GC disabled included (no collection ever runs there): the
+        # program behaves identically with and without collections, which is what C03 states; the panic itself is C07's business
+        # (e.g. the `len overflow` assertion of StarlarkStr::new on a string of 4 GiB, reached by a recursion that doubles a string)
+        msgs = {str(r.get("panic")) if (r is not None and ci not in crashes and "panic" in r) else None for ci, r in runs.values()}
+        if len(msgs) == 1 and None not in msgs and "nogc" in runs:
+            st["same_panic_under_every_schedule"] = st.get("same_panic_under_every_schedule", 0) + 1
+            ctx.log("NOTE program %s panics identically under every schedule incl. GC disabled (%s): not a GC effect, see C07"
+                    % (p["id"], list(msgs)[0][:80]))
+            continue
         for sname, (ci, r) in runs.items():
             if ci in crashes:
                 rc, log = crashes.get(ci, (None, ""))
